@@ -1,7 +1,8 @@
 (** Statement pins for C18: the headline theorems must have exactly these
     types, so they cannot be weakened silently. *)
 From RsM Require Import Lib.MachInt Model.Btp Model.BtpSpec
-  Proofs.BtpCodec Proofs.BtpFacts Proofs.BtpHostile Proofs.BtpPair Proofs.BtpHandshake Props.C18.
+  Proofs.BtpCodec Proofs.BtpFacts Proofs.BtpHostile Proofs.BtpPair Proofs.BtpHandshake
+  Proofs.BtpLive Model.BtpTimed Props.C18.
 Open Scope N_scope.
 
 Check (C18_hostile_safe : forall ops : list op,
@@ -11,7 +12,7 @@ Check (C18_refused_changes_nothing : forall (i : inner) (g : option N) (a : N) (
 Check (C18_pair_safe : forall m w : N,
   20 <= m <= 244 -> 1 <= w <= 255 -> w * m + 1234 <= RX_CAP ->
   forall (c : cfg) (ver : N) (rel : bool) (ops : list sop),
-  mon_pair ops (snd (sys_run c (sys_established c ver m w rel) ops)) = true).
+  mon_pair_est ops (snd (sys_run c (sys_established c ver m w rel) ops)) = true).
 Check (C18_exactly_once_in_order : forall m w : N,
   20 <= m <= 244 -> 1 <= w <= 255 -> w * m + 1234 <= RX_CAP ->
   forall (c : cfg) (ver : N) (rel : bool) (ops : list sop),
@@ -51,8 +52,28 @@ Check (C18_handshake_establishes : forall (c : cfg) (rel t1 t2 : bool),
   fst (sys_run c (sys_fresh rel) [SPoll SA t1; SDeliver SB; SPoll SB t2; SDeliver SA])
     = sys_established c 4 m w rel /\
   20 <= m <= 244 /\ 1 <= w <= 255 /\ w * m + 1234 <= RX_CAP).
-Check (C18_fresh_pair_safe : forall (c : cfg) (rel t1 t2 : bool) (ops : list sop),
-  mon_pair ops
-    (snd (sys_run c
-            (fst (sys_run c (sys_fresh rel) [SPoll SA t1; SDeliver SB; SPoll SB t2; SDeliver SA]))
-            ops)) = true).
+Check (C18_fresh_pair_safe : forall (c : cfg) (rel : bool) (ops : list sop),
+  mon_pair ops (snd (sys_run c (sys_fresh rel) ops)) = true).
+Check (C18_no_lost_ack : forall m w : N,
+  20 <= m <= 244 -> 1 <= w <= 255 -> w * m + 1234 <= RX_CAP ->
+  forall (c : cfg) (ver : N) (rel : bool) (ops : list sop),
+  let s := fst (sys_run c (sys_established c ver m w rel) ops) in
+  chain_end (slast (send (sess (epA s)))) (w - slevel (send (sess (epA s)))) (acks_of (chBA s))
+    = nlen (chAB s) + rack_level (recv (sess (epB s))) /\
+  chain_end (slast (send (sess (epB s)))) (w - slevel (send (sess (epB s)))) (acks_of (chAB s))
+    = nlen (chBA s) + rack_level (recv (sess (epA s)))).
+Check (C18_no_deadlock : forall m w : N,
+  20 <= m <= 244 -> 1 <= w <= 255 -> w * m + 1234 <= RX_CAP ->
+  forall (c : cfg) (ver : N) (rel : bool) (ops : list sop),
+  let s := fst (sys_run c (sys_established c ver m w rel) ops) in
+  can_move c s SA \/ can_move c s SB).
+Check (C18_ack_by_deadline : forall m w : N,
+  20 <= m <= 244 -> 1 <= w <= 255 -> w * m + 1234 <= RX_CAP ->
+  forall (c : cfg) (ver : N) (rel : bool) (t0 : N) (ops : list top) (x : side) (r : N),
+  let t := fst (trun c (tsys_established c ver m w rel t0) ops) in
+  received_at (clk_of t x) = Some r -> r + ACK_TIMEOUT <= t_now t ->
+  1 <= rack_level (recv (sess (ep (t_sys t) x))) -> rmsgs (recv (sess (ep (t_sys t) x))) = 0 ->
+  1 <= slevel (send (sess (ep (t_sys t) x))) ->
+  exists b h p,
+    snd (tstep c t (TPoll x)) = Some (RBytes b) /\ hdr_decode b = Ok (h, p) /\
+    get_ack h = Some (rack_seq (recv (sess (ep (t_sys t) x))))).
